@@ -4,6 +4,7 @@ import (
 	"bytes"
 	"encoding/json"
 	"fmt"
+	"strings"
 	"time"
 
 	"gitee.com/Trisia/gotlcp/dtlcp"
@@ -35,12 +36,12 @@ type c15Params struct {
 	ChainPad int `json:"chain_pad,omitempty"`
 }
 
-var c15LossNames = []string{"CH0#1", "CH1#1", "HVR#1", "F5b#1"}
+var c15LossNames = []string{"CH0#1", "CH1#1", "HVR#1", "F5b#1", "F6#1"}
 
 func (c15) ID() string    { return "C15" }
 func (c15) Level() string { return "exploration" }
 func (c15) Rule() string {
-	return "each case draws a suite, a path MTU for each side independently (from 200 up to above the record limit, 0 = default 1400), client authentication on/off, a list of WriteTo payload sizes around the boundaries (0, 1, the exact maximum payload for that MTU and suite computed by the reference record format, one and sixteen bytes above it, 16384) for both directions, optionally one large Write through the stream API, 0-2 losses of handshake datagrams whose retransmission is known to work (so that retransmitted flights are measured too), optionally a server reached through a listener configuration of another PMTU whose GetConfigForClient returns the configuration in force, and optionally a server certificate chain that makes the Certificate message 16.4-17.3 KB (a handshake message above the record limit). Oracle (wire monitor over everything handed to the PacketConn): every datagram <= the sender's path MTU; no record with more than 16384 plaintext bytes; a WriteTo of at most the maximum payload is exactly one datagram and the peer's ReadFrom returns exactly that payload; larger writes through Write arrive complete and in order. distinct = distinct parameter vectors; non-trivial = handshake completed and at least one boundary-size payload crossed"
+	return "each case draws a suite, a path MTU for each side independently (from 200 up to above the record limit, 0 = default 1400), client authentication on/off, a list of WriteTo payload sizes around the boundaries (0, 1, the exact maximum payload for that MTU and suite computed by the reference record format, one and sixteen bytes above it, 16384) for both directions, optionally one large Write through the stream API, 0-2 losses of handshake datagrams whose retransmission is known to work (so that retransmitted flights are measured too), optionally a server reached through a listener configuration of another PMTU whose GetConfigForClient returns the configuration in force, and optionally a server certificate chain that makes the Certificate message 16.4-17.3 KB (a handshake message above the record limit). Oracle (wire monitor over everything handed to the PacketConn): every datagram <= the sender's path MTU; no record with more than 16384 plaintext bytes; a retransmitted flight whose first transmission was within the path MTU stays within it; a WriteTo of at most the maximum payload is exactly one datagram and the peer's ReadFrom returns exactly that payload; larger writes through Write arrive complete and in order. distinct = distinct parameter vectors; non-trivial = handshake completed and at least one boundary-size payload crossed"
 }
 func (c15) Components() (real, stub []string) {
 	return []string{"dtlcp client+server (instrumented): record sizing, handshake fragmentation, flight buffering and flush, retransmission"},
@@ -288,7 +289,7 @@ func (c15) Run(c *Case, src *vs.Src) *Result {
 		return out
 	}
 	expC2S, expS2C := filter(szC, maxC), filter(szS, maxS)
-	w.Go("client", func() { run(pair.C, pair.S, cd, szC, expS2C, &ci, true, maxC); })
+	w.Go("client", func() { run(pair.C, pair.S, cd, szC, expS2C, &ci, true, maxC) })
 	w.Go("server", func() { run(pair.S, pair.C, sd, szS, expC2S, &si, false, maxS) })
 	reason, unf := w.Run()
 	w.Finish(r, sigp)
@@ -298,6 +299,24 @@ func (c15) Run(c *Case, src *vs.Src) *Result {
 	if reason != vs.Done {
 		r.Violate("not-ended", sigp+" not-ended "+reason, "run ended with %q, unfinished %v (client hs %v, server hs %v)", reason, unf, ci.hsErr, si.hsErr)
 		return r
+	}
+	// ---- a retransmission is not larger than what it repeats: a flight whose first transmission respected the
+	// path MTU must not exceed it when it is sent again
+	firstLen := map[string]int{}
+	for _, d := range pair.Net.SentLog() {
+		if i := strings.Index(d.Name, "#"); i > 0 {
+			base := fmt.Sprintf("%d/%s", d.Dir, d.Name[:i])
+			limit := pmtuOf(p.PMTUC)
+			if d.Dir == simnet.DirS2C {
+				limit = pmtuOf(p.PMTUS)
+			}
+			if d.Name[i:] == "#1" {
+				firstLen[base] = d.OrigLen
+			} else if fl, ok := firstLen[base]; ok && fl <= limit && d.OrigLen > limit {
+				r.Violate("datagram-over-mtu", "C15 retransmission>pmtu original-within", "datagram %s has %d bytes with path MTU %d, while the first transmission of that flight had %d", d.Name, d.OrigLen, limit, fl)
+				break
+			}
+		}
 	}
 	// ---- datagram sizes (everything handed to the network, including handshake flights and retransmissions)
 	for _, d := range pair.Net.SentLog() {
